@@ -570,6 +570,23 @@ def normalise_windows(ex, st, v, depth=0, seen=None):
             if c not in seen:
                 seen.add(c)
                 normalise_windows(ex, st, st.cells[c], depth + 1, seen)
+    if v[1] in ('methods::highest_lowest_index::HighestIndex', 'methods::highest_lowest_index::LowestIndex'):
+        # invariant proved inductive by rule A06: the age kept by the arg-extremum methods is < their window's length
+        for vn, fs in v[3].items():
+            if 'index' in fs and 'window' in fs:
+                w = st.cells[fs['window']]
+                if w[0] == 'adt' and 'Window' in w[3]:
+                    size = st.cells[w[3]['Window']['size']]
+                    if size[0] == 'int' and ex.rng(st, size[2])[0] >= 1:
+                        age = ex.mk_int(st, size[1], 0, max(ex.rng(st, size[2])[1] - 1, 0))
+                        st.rel.add(('lt', age[2], size[2]))
+                        st.cells[fs['index']] = age
+
+
+# overflow sites outside the generic decided kinds that the invariants now reach (function, prefix of the operation)
+DECIDED_SITES = [
+    ('indicators::aroon::AroonInstance', 'Sub(self.cfg.period, '),      # period - age: age < window length == period (A06)
+]
 
 
 def a02_next_with_facts(ctx, only=None, strict_module=None, rule_id='A02'):
@@ -626,7 +643,8 @@ def a02_next_with_facts(ctx, only=None, strict_module=None, rule_id='A02'):
         ex.split_bool_casts = ('core::window::',)      # the branchless cursor arithmetic of the ring buffer is evaluated per truth value
         args = [('ref', ex.alloc(s0, inst))]
         for k in range(2, nb.arg_count + 1):
-            args.append(ex.top_of(s0, nb.locals[k]['tyj']))
+            # C10 speaks of streams of valid finite inputs: every float component of the input is finite
+            args.append(finite_floats(ex, s0, ex.top_of(s0, nb.locals[k]['tyj'])))
         try:
             nouts = ex.run_fn(nb, s0, args, [next_id])
         except Budget as e:
@@ -647,6 +665,10 @@ def a02_next_with_facts(ctx, only=None, strict_module=None, rule_id='A02'):
             elif ob.kind in ('boundscheck', 'overflow') and 'core::window::' in ob.fn:
                 decided_kind = True     # ring-buffer accesses: decided with the representation invariant of A04
             elif ob.kind == 'panic' and 'Window' in ob.fn and ('index' in ob.fn or 'Index' in ob.fn):
+                decided_kind = True
+            elif ob.kind in ('boundscheck', 'overflow') and 'methods::highest_lowest_index::' in ob.fn:
+                decided_kind = True     # decided with the age invariant of A06
+            elif ob.kind == 'overflow' and any(site_fn in ob.fn and ob.detail.startswith(pref) for site_fn, pref in DECIDED_SITES):
                 decided_kind = True
             elif ob.kind in ('unwrap', 'expect') and 'window' in ob.fn.lower():
                 decided_kind = True
